@@ -368,8 +368,10 @@ class CircuitSimulator:
             `qutip.Qobj`: The current state of the simulator.
         """
         if not isinstance(self._state, Qobj) and self._state is not None:
-            self._state = self._state.reshape(self._state_mat_shape)
-            return Qobj(self._state, dims=self._state_dims)
+            return Qobj(
+                self._state.reshape(self._state_mat_shape),
+                dims=self._state_dims,
+            )
         else:
             return self._state
 
